@@ -224,6 +224,7 @@ class Interp:
         self.max_depth = max_depth
         self.steps = 0
         self.statics = {}
+        self.overrides = {}  # fn id -> callable(args) (e.g. cached CPU detectors)
 
     # ------------------------------------------------------------------ entry
     def call(self, fid, args):
@@ -769,6 +770,8 @@ class Interp:
 
     def dispatch(self, fr, name, fname, k, args, depth):
         P = self.P
+        if name in self.overrides:
+            return self.overrides[name](args)
         for e in self.effect_fns:
             if name == e or name.endswith("::" + e):
                 recv = args[0] if args else None
